@@ -82,7 +82,7 @@ theorem eulExB_inv : Inv eulExB := Inv_of_InvD (by decide)
 /-! ## (1) the Euler characteristic is the alternating count of simplices -/
 
 /-- the running-sign loop of `eulerCharacteristic()` computes the alternating sum -/
-theorem eulerOfCounts_range (g : Nat → Nat) (N : Nat) :
+theorem eul_eulerOfCounts_range (g : Nat → Nat) (N : Nat) :
     eulerOfCounts ((List.range N).map g) = ∑ k ∈ range N, (-1 : Int) ^ k * (g k : Int) := by
   unfold eulerOfCounts
   suffices h : (((List.range N).map g).foldl
@@ -120,7 +120,7 @@ theorem signed_count (L : List (Simp Name)) (N : Nat) (hN : ∀ s ∈ L, s.order
 theorem euler_def {c : C} (hI : Inv c) :
     euler c = (c.simps.map (fun s => (-1 : Int) ^ s.order)).sum := by
   unfold euler countsOf
-  rw [eulerOfCounts_range (fun k => (c.ofOrder k).length)]
+  rw [eul_eulerOfCounts_range (fun k => (c.ofOrder k).length)]
   apply signed_count
   intro s hs
   have := maxOrder_ge hI hs
